@@ -356,6 +356,9 @@ def run(ctx):
     ctx.rule("C17-file-text", "the reader is handed the file's text (LF or CRLF line ends, with or without a final newline): table of the "
                               "character stream file_char_stream yields for eleven file texts, the file system answered from the text")
     ioerrors.rule_stream(ctx, "C17-file-text")
+    ctx.rule("C17-output-complete", "whatever writes program output hands the stream the whole text: no `Write::write` / `Read::read` whose "
+                                    "returned byte count is thrown away (a short write silently loses the rest of what was displayed)")
+    ioerrors.rule_io_amounts(ctx, "C17-output-complete")
     ctx.rule("C17-same-path", "eval_file = record the program directory, then eval(file_char_stream(path)?)")
     efn = fb.find("interpreter::interpreter::Interpreter::eval_file")
     fcs = [(b, t) for b, t in efn.calls() if callee_matches(t, "io::file_char_stream")]
